@@ -403,7 +403,7 @@ def run(ctx):
     # =================================================================================================
     # ---- the SOURCE-REGENERATED code (translator extension) ------------------------------------------
     # Gen.points_in_tolerance (lean/Plotink/Gen/points_in_tolerance.lean, regenerated from plot_utils.py on every
-    # run; the definition the C09_gen_* theorems are about) and Gen.supersample (translated, validated here only: the
+    # run; the definition the C09_gen_* theorems are about) and Gen.supersample (translated; bridge C09_gen_ss_bridge; the
     # in-place deletion becomes "return (None, new list)", both `while` loops run on fuel 2*len+5) against the real
     # functions:
     #   exact - Rounding.exact on the Fraction cases above (a `flt` under identity rounding is an exact rational);
@@ -415,7 +415,9 @@ def run(ctx):
 
 GEN_FUNCTIONS = ['points_in_tolerance', 'supersample']
 TRUSTED = TRUSTED + ['Gen.points_in_tolerance is regenerated from plot_utils.py on every run and proved equal to the hand model in '
-                     'exact arithmetic (C09_gen_bridge); Gen.supersample is regenerated and validated only (no bridge theorem); '
+                     'exact arithmetic (C09_gen_bridge); Gen.supersample is regenerated on every run and proved equal to the hand model '
+                     'C09.supersample in exact arithmetic for every fuel >= len (C09_gen_ss_bridge; corollaries C09_gen_sublist, '
+                     'C09_gen_deleted_close, C09_gen_noop, C09_gen_fuel); '
                      'not verified, validated by the generated-code stream of this run: the translator (for/while loops, slices, '
                      'in-place slice deletion as rebinding) and the Py.Val library, Rounding.ieee as binary64']
 
